@@ -89,6 +89,7 @@ struct conn {
   int used, cfd, sfd, started, eof_seen, addr;
   int nreq;
   struct MHD_Connection *mc;
+  int cto_set, cto_applied; unsigned cto;   /* per-connection timeout (seconds), applied by the handler at the first call */
   int resume_in;            /* rounds until auto-resume; -1 none */
   int is_susp;              /* suspended and no resume issued yet (harness view) */
   int frozen_valid, need_snap; struct snapst frozen;
@@ -330,6 +331,11 @@ static enum MHD_Result handler (void *cls, struct MHD_Connection *mc, const char
     rq->c = c; rq->r = conns[c].nreq++;
     *req_cls = rq;
     phase = "first";
+    if (conns[c].cto_set && !conns[c].cto_applied)
+    { /* the application's own inactivity timeout for this connection (manual-timeout list when != daemon default) */
+      conns[c].cto_applied = 1;
+      MHD_set_connection_option (mc, MHD_CONNECTION_OPTION_TIMEOUT, conns[c].cto);
+    }
   }
   else if (0 != *upload_data_size) phase = "upload";
   else if (rq->refirst) phase = "refirst";
@@ -592,6 +598,8 @@ int main (void)
       out ("ok"); continue;
     }
     if (!strcmp (op, "req")) { out ("ok"); continue; }   /* declaration for the model only */
+    if (!strcmp (op, "cto") && l.n >= 3 && lp_u64 (l.w[1], &a) && lp_u64 (l.w[2], &b) && a < MAXC)
+    { conns[a].cto_set = 1; conns[a].cto = (unsigned) b; out ("ok"); continue; }
     if (!strcmp (op, "beh") && l.n >= 3)
     {
       int c = atoi (l.w[1]), r = atoi (l.w[2]), bad = 0; struct beh *bh;
@@ -652,13 +660,18 @@ int main (void)
     if (!strcmp (op, "rounds") && l.n >= 2 && lp_u64 (l.w[1], &a))
     { for (i = 0; i < (int) a; i++) { one_round (); drain_clients (); check_frozen (); } report (); out ("round-end"); continue; }
     if (!strcmp (op, "tick") && l.n >= 2 && lp_u64 (l.w[1], &a)) { vclock_ms += a; out ("ok"); continue; }
+    if (!strcmp (op, "tick-if-susp") && l.n >= 3 && lp_u64 (l.w[1], &a) && lp_u64 (l.w[2], &b) && a < MAXC && !threaded ())
+    { /* the virtual clock advances only while connection a is suspended (and nobody has resumed it yet) */
+      if (conns[a].used && conns[a].is_susp) { vclock_ms += b; out ("ticked c=%d ms=%" PRIu64, (int) a, b); }
+      else out ("not-ticked c=%d", (int) a);
+      continue; }
     if (!strcmp (op, "resume") && l.n >= 2 && lp_u64 (l.w[1], &a) && a < MAXC && conns[a].mc)
     { conns[a].resume_in = -1; LOCK (); printf ("resume c=%d op\n", (int) a); conns[a].is_susp = 0; MHD_resume_connection (conns[a].mc); UNLOCK (); continue; }
     if (!strcmp (op, "wb") && l.n >= 2 && lp_u64 (l.w[1], &a) && a < MAXC && conns[a].mc && !threaded ())
     { /* white-box view of the flags the model carries */
       struct MHD_Connection *mc = conns[a].mc;
-      out ("wb c=%d suspended=%d resuming=%d dresuming=%d eli=%d ep=%d", (int) a, (int) mc->suspended, (int) mc->resuming,
-           (int) d->resuming, (int) mc->event_loop_info,
+      out ("wb c=%d suspended=%d resuming=%d dresuming=%d age=%" PRIu64 " cto=%" PRIu64 " eli=%d ep=%d", (int) a, (int) mc->suspended, (int) mc->resuming,
+           (int) d->resuming, (uint64_t) (vclock_ms - mc->last_activity), (uint64_t) mc->connection_timeout_ms, (int) mc->event_loop_info,
 #ifdef EPOLL_SUPPORT
            (int) mc->epoll_state
 #else
